@@ -328,6 +328,9 @@ NonLeaf(h) ==
               sp \in Split2(r)} \cup
           {CallK(Name("h_kw"), <<>>, <<"x">>, <<Hole("Int", r, ns, ss)>>)} \cup
           {Fn("h_deep", <<Hole("Evt", r, ns, ss)>>)} \cup
+          {Fn("h_rec", <<CallK(Name("Rec2"), <<Hole("Int", sp[1], ns, ss)>>, <<"b">>, <<Hole("Int", sp[2], ns, ss)>>)>>) :
+              sp \in Split2(r)} \cup
+          {Fn("h_rec", <<Fn("Rec2", <<Hole("Int", r, ns, ss)>>)>>)} \cup
           {Fn("h_d3", <<Hole("Int", r, ns, ss)>>)} \cup
           {Fn("h_d3", <<Hole("Int", sp[1], ns, ss), Hole("Int", sp[2], ns, ss)>>) : sp \in Split2(r)} \cup
           {CallK(Name("h_d3"), <<Hole("Int", sp[1], ns, ss)>>, <<"z">>, <<Hole("Int", sp[2], ns, ss)>>) : sp \in Split2(r)}
